@@ -257,7 +257,8 @@ pub fn run(cfg: &Cfg, rep: &mut Report) {
     });
     // ---- f32: all bit patterns (thorough) or a strided sample + boundaries (quick)
     let chunks: u64 = 4096;
-    let stride: u64 = if cfg.tiny { 1 << 26 } else if cfg.quick() { 1021 } else { 1 };
+    // all 2^32 patterns only in the release build of the thorough tier; the debug build samples every 61st
+    let stride: u64 = if cfg.tiny { 1 << 26 } else if cfg.quick() { 1021 } else if cfg.profile == "release" { 1 } else { 61 };
     let before = rep.counters.get("stage.f32.truncated").copied();
     run_cases(cfg, "f32", chunks, rep, |_rng, ctx| {
         if ctx.cfg.tiny && (ctx.index / 16) % 16 != 0 {
